@@ -101,6 +101,38 @@ def mergeCells (e : Ex) : Nat → List (List Cell) → List (List Cell) → List
   | n + 1, [], b :: bs => e.mrg e.empty b :: mergeCells e n [] bs
   | _ + 1, [], [] => []
 
+/-- the body of `Sequence.Merge` after the swap and the truncateBefore test:
+    `a` is the sequence with the later (or equal) `until` -/
+def mergeMain (e : Ex) (res : Int) (a b : Seq) : Seq :=
+  let startA := a.hi
+  let startB := b.hi
+  let aP : Int := a.cells.length
+  let bP : Int := b.cells.length
+  let endA := startA - aP * res
+  let endB := startB - bP * res
+  let end_ := if endA < endB then endA else endB
+  let total := ((startA - end_).tdiv res).toNat
+  let leadEnd := if startB < endA then endA else startB
+  let leadN := (startA - leadEnd).tdiv res
+  let lead := if leadN > 0 then a.cells.take leadN.toNat else []
+  let sa := if leadN > 0 then a.cells.drop leadN.toNat else a.cells
+  let mid :=
+    if startB > endA then
+      let ov0 := if endB > endA then (startA - endB).tdiv res else (startA - endA).tdiv res
+      mergeCells e (ov0 - leadN).toNat sa b.cells
+    else if startB < endA then
+      List.replicate ((endA - startB).tdiv res).toNat e.empty
+    else []
+  let ov : Nat :=
+    if startB > endA then
+      let ov0 := if endB > endA then (startA - endB).tdiv res else (startA - endA).tdiv res
+      (ov0 - leadN).toNat
+    else 0
+  let sa' := sa.drop ov
+  let sb' := b.cells.drop ov
+  let tail := if endA < endB then sa' else if endB < endA then sb' else []
+  ⟨startA, fit e total (lead ++ mid ++ tail)⟩
+
 /-- `Sequence.Merge(other, e, resolution, truncateBefore)`. -/
 def Sq.merge (e : Ex) (res : Int) (s other : Sq) (truncateBefore : Int) : Sq :=
   match s, other with
@@ -108,32 +140,9 @@ def Sq.merge (e : Ex) (res : Int) (s other : Sq) (truncateBefore : Int) : Sq :=
   | some a, none => some a
   | some a0, some b0 =>
     let (a, b) := if b0.hi > a0.hi then (b0, a0) else (a0, b0)
-    let startA := a.hi
-    let startB := b.hi
-    let tb := roundUntilUp truncateBefore res startA
-    if startB < tb then some a
-    else
-      let aP : Int := a.cells.length
-      let bP : Int := b.cells.length
-      let endA := startA - aP * res
-      let endB := startB - bP * res
-      let end_ := if endA < endB then endA else endB
-      let total := ((startA - end_).tdiv res).toNat
-      let leadEnd := if startB < endA then endA else startB
-      let leadN := (startA - leadEnd).tdiv res
-      let lead := if leadN > 0 then a.cells.take leadN.toNat else []
-      let sa := if leadN > 0 then a.cells.drop leadN.toNat else a.cells
-      let (mid, sa, sb) :=
-        if startB > endA then
-          let ov0 := if endB > endA then (startA - endB).tdiv res else (startA - endA).tdiv res
-          let ov := (ov0 - leadN).toNat
-          (mergeCells e ov sa b.cells, sa.drop ov, b.cells.drop ov)
-        else if startB < endA then
-          let gap := ((endA - startB).tdiv res).toNat
-          (List.replicate gap e.empty, sa, b.cells)
-        else ([], sa, b.cells)
-      let tail := if endA < endB then sa else if endB < endA then sb else []
-      some ⟨startA, fit e total (lead ++ mid ++ tail)⟩
+    let tb := roundUntilUp truncateBefore res a.hi
+    if b.hi < tb then some a
+    else some (mergeMain e res a b)
 
 /-- `Sequence.ValueAt(period, e)` on states: the state at a period index -/
 def Sq.cellAt (s : Sq) (e : Ex) (period : Int) : List Cell :=
